@@ -32,6 +32,11 @@ func (P) Rule() string {
 		"a cache-window stream (50 quick / 150 thorough, with a COLD REPLICA stack that never sees a submission and must give the same verdict on every block) submits confidential transactions ALTERED after construction " +
 		"(outpk, pseudo-out, range proof, ring signature) and oversize ones — admission refuses them — and forces foreign blocks holding them, immediately, after other ops, and INSIDE the window of a paused AddTx " +
 		"(op window: cache.Put done, basic check not finished — the interleaving in which only CheckAndGet protects the validator path), also for valid transactions and for spends of spent outputs; " +
+		"coverage-guided streams: LANES (40/150: validators installed with SetLastChangedVals, MultiSignAccountTx with enough / too few signatures, due / stale / future nonce, same nonce in two variants, SpecSize 1/2/100 incl. the refusal after the state check, " +
+		"Reap caps 0/1/2/1000 against the lane order good ++ utxo ++ special, forced blocks with a competitor / an under-signed one), QCAP (45/150: RemoveFutureTx with AccountQueue 1/2/3 and queues of cap-1 / cap / cap+1 / cap+2 entries per sender, " +
+		"GoodTxDropTime=0 so that filterTxs drops every pending tx the block did not take, Broadcast on with a one-slot channel, TxsAvailable enabled), one EVICT case that waits for the pool's own 10 s eviction tick, " +
+		"FILTERS (35/120, no commits: explicit gas limits at rule-1 / rule / rule+1 and intrinsic-1 / intrinsic, 0..7045 non-zero and zero data bytes, recipient with code / without / none, and the same transactions as PEER MESSAGES through " +
+		"MempoolReactor.Receive — valid, duplicate, stale, oversize, illegal gas, undecodable bytes, empty, hash notify / request, with ReceiveP2pTx on and off); every dump also carries the key-image index verdict and the TxsAvailable signal; " +
 		"a concurrent stream submits prebuilt transactions from 8 goroutines while the consensus goroutine reaps and commits, invariants checked on every reap and after quiescence; " +
 		"non-trivial = at least one commit with a transaction AND at least one of: queued transaction promoted, rejection (dup/stale/funds/double-spend/full/oversized), forced block; distinct = distinct op sequence"
 }
@@ -74,6 +79,9 @@ func costOf(m minfo, toks []string) (native int64, tok int64) {
 	}
 	switch m.kind {
 	case "xfer":
+		if g := argI(toks, "gas", -1); g >= 0 {
+			return m.amount + g*(types.ParGasPrice/1e10), 0
+		}
 		return m.amount + fee(m.amount), 0
 	case "xfertok":
 		return fee(0), m.amount
@@ -94,6 +102,8 @@ func (P) Monitor(c *hx.CaseRun) []hx.Failure {
 	committedImg := map[int]bool{}
 	var cn, cb, ct []int64
 	size := 3000
+	availOn, notified, acctQ, evictAll, dropAll := false, false, 0, false, false
+	pendingBefore := map[int]bool{}
 	dirty := false
 	prevSpec := ""
 	fail := func(mon, class, site, msg string, dirtyRelated bool) {
@@ -109,7 +119,11 @@ func (P) Monitor(c *hx.CaseRun) []hx.Failure {
 		fs = append(fs, hx.Failure{Monitor: mon, Class: class, Site: site, Msg: msg})
 	}
 	// the property on a list of offered transactions (in offer order) against the committed state
+	mnComm := int64(0) // committed nonce of the multi-sign address (from the last dump)
 	checkOffered := func(where string, ids []int, funded bool) {
+		nextMsig := mnComm
+		seenAccountOrSpend, laneOrder := false, true
+		_ = seenAccountOrSpend
 		seen := map[int]bool{}
 		imgs := map[int]bool{}
 		next := map[int]int64{}
@@ -126,6 +140,19 @@ func (P) Monitor(c *hx.CaseRun) []hx.Failure {
 			m, ok := info[id]
 			if !ok {
 				continue
+			}
+			if m.kind == "msig" {
+				// the special lane is offered last and carries the nonces of the multi-sign address without a gap
+				laneOrder = false
+				if m.nonce != nextMsig {
+					fail("offered_gapfree", "offered-special-lane-nonce-gap", "mempool/mempool.go:addLocalSpecTx",
+						fmt.Sprintf("%s: multi-sign tx %d carries nonce %d where %d is due", where, id, m.nonce, nextMsig), false)
+				}
+				nextMsig = m.nonce + 1
+				continue
+			}
+			if !laneOrder {
+				fail("lane_order", "offered-lane-order", "mempool/mempool.go:Reap", fmt.Sprintf("%s: tx %d of an ordinary lane is offered after a special-lane transaction", where, id), false)
 			}
 			if m.img >= 0 {
 				if imgs[m.img] {
@@ -163,6 +190,12 @@ func (P) Monitor(c *hx.CaseRun) []hx.Failure {
 		}
 		if toks[0] == "pool" {
 			size = int(argI(toks, "size", 3000))
+			availOn = argI(toks, "avail", 0) == 1
+			if argI(toks, "rmfuture", 0) == 1 {
+				acctQ = int(argI(toks, "acctq", 1000))
+				evictAll = argI(toks, "lifens", 0) > 0
+			}
+			dropAll = argI(toks, "droptime", -1) == 0
 		}
 		if v, ok := hx.Arg(a, "cn"); ok {
 			cn = parseInts(v)
@@ -180,7 +213,7 @@ func (P) Monitor(c *hx.CaseRun) []hx.Failure {
 			id, _ := strconv.Atoi(v)
 			if _, have := info[id]; !have {
 				from := -1
-				if toks[0] != "uu" && toks[0] != "ua" {
+				if toks[0] != "uu" && toks[0] != "ua" && toks[0] != "msig" {
 					from = int(argI(toks, "from", 0))
 				}
 				_, tampered := hx.Arg(toks, "tamper")
@@ -264,7 +297,93 @@ func (P) Monitor(c *hx.CaseRun) []hx.Failure {
 				fmt.Sprintf("%s was rejected (%s) but the speculative state changed from [%s] to [%s]", op, add, prevSpec, spec), true)
 		}
 		prevSpec = spec
-		checkOffered("pending after "+toks[0], append(append([]int{}, g...), u...), false)
+		sv, _ := hx.Arg(a, "s")
+		specIDs := parseIDs(sv)
+		if mv, ok := hx.Arg(a, "mn"); ok {
+			if p := parseInts(mv); len(p) == 2 {
+				mnComm = p[1]
+			}
+		}
+		checkOffered("pending after "+toks[0], append(append(append([]int{}, g...), u...), specIDs...), false)
+		// the key-image index must be exactly the images of the pooled confidential spends
+		if ki, ok := hx.Arg(a, "ki"); ok && ki != "ok" {
+			cls := "keyimage-index-stale"
+			if !strings.Contains(ki, "missing:0") {
+				cls = "keyimage-index-missing"
+			}
+			fail("keyimage_index_exact", cls, "mempool/mempool.go:KeyImagePush",
+				"after "+op+": the pool's key-image index differs from the images of the transactions in utxoTxs ("+ki+"): a stale image refuses a valid spend forever, a missing one lets two spends of one output in", false)
+		}
+		// TxsAvailable (liveness, outside the property's safety clauses): a non-empty pool must have notified since the last commit
+		if av, ok := hx.Arg(a, "av"); ok && availOn {
+			if strings.HasPrefix(ans, "h=") {
+				notified = av == "1"
+			} else if av == "1" {
+				notified = true
+			}
+			if len(g)+len(u)+len(specIDs) > 0 && !notified {
+				fail("txs_available_notified", "txs-available-notification-missed", "mempool/mempool.go:notifyTxsAvailable",
+					"after "+op+": the pool offers transactions but no TxsAvailable notification has fired since the last commit (the proposer would wait)", false)
+			}
+		}
+		// per-account queue cap (RemoveFutureTx): after an Update no sender keeps more than AccountQueue queued transactions
+		if acctQ > 0 && strings.HasPrefix(ans, "h=") {
+			cnt := map[int]int{}
+			for _, id := range q {
+				if m, ok := info[id]; ok && m.from >= 0 {
+					cnt[m.from]++
+					if cnt[m.from] > acctQ {
+						fail("queue_cap", "account-queue-over-cap", "mempool/tx_list.go:Cap", fmt.Sprintf("after %s: sender %d keeps more than %d queued transactions", op, m.from, acctQ), false)
+					}
+				}
+			}
+		}
+		if toks[0] == "evictwait" && evictAll && len(q) > 0 {
+			fail("queue_eviction", "idle-queue-not-evicted", "mempool/mempool.go:loop", "the eviction tick left queued transactions of queues idle for longer than Lifetime: "+ans, false)
+		}
+		// GoodTxDropTime = 0: whatever was pending before the Update and was not committed must be gone
+		if dropAll && strings.HasPrefix(ans, "h=") {
+			for _, id := range append(append(append([]int{}, g...), u...), specIDs...) {
+				if pendingBefore[id] {
+					fail("timeout_drop", "timed-out-pending-kept", "mempool/mempool.go:filterTxs", fmt.Sprintf("after %s: tx %d is older than GoodTxDropTime and still pending", op, id), false)
+				}
+			}
+		}
+		pendingBefore = map[int]bool{}
+		for _, id := range append(append(append([]int{}, g...), u...), specIDs...) {
+			pendingBefore[id] = true
+		}
+		// peer messages: undecodable bytes cost the peer its connection, anything else does not; the admission answer of a peer's
+		// transaction is the one of a local submission (checked by the correspondence); admission filters on the gas limit
+		if toks[0] == "recv" {
+			k, _ := hx.Arg(toks, "kind")
+			st := argI(a, "stopped", 0)
+			if (k == "garbage" || k == "empty") != (st == 1) {
+				fail("peer_message_handling", "peer-punishment-wrong", "mempool/reactor.go:Receive", op+" -> "+ans, false)
+			}
+		}
+		if toks[0] == "xfer" && argI(toks, "tocode", 0) == 0 && argI(toks, "pad", 0) == 0 {
+			if add, ok := hx.Arg(a, "add"); ok {
+				amount := argI(toks, "amount", 1)
+				want := int64(types.CalNewAmountGas(new(big.Int).Mul(big.NewInt(amount), appsim.Unit), types.EverLiankeFee))
+				gas := argI(toks, "gas", want)
+				intr := int64(21000)
+				if argI(toks, "create", 0) == 1 {
+					intr = 53000
+				}
+				intr += 68*argI(toks, "nz", 0) + 4*argI(toks, "z", 0)
+				legal := gas == want && gas >= intr
+				if argI(toks, "create", 0) == 1 && argI(toks, "nz", 0)+argI(toks, "z", 0) > 0 {
+					// no recipient and a payload that is not a JSON object: a contract creation may carry any gas that covers the rule
+					legal = gas >= intr && (amount == 0 || gas >= want)
+				}
+				refused := add == "other:illegal_gasLimit_or_gasPrice"
+				if legal == refused {
+					fail("gas_limit_filter", "gas-limit-filter-wrong", "types/transaction.go:IllegalGasLimitOrGasPrice",
+						fmt.Sprintf("%s: gas %d, fee-rule gas %d, intrinsic gas %d -> %s", op, gas, want, intr, add), false)
+				}
+			}
+		}
 		if qn := int(argI(a, "qn", -1)); qn != len(q) {
 			fail("queue_count", "queued-count-mismatch", "mempool/mempool.go:stats", fmt.Sprintf("Stats() says %d queued, cache membership says %d", qn, len(q)), false)
 		}
@@ -527,6 +646,23 @@ func (P) Generate(g *hx.Gen) {
 	for k := 0; k < nw; k++ {
 		ops, label := cacheWindowCase(g)
 		g.Case("cachewin "+label, ops, true)
+	}
+	// coverage-guided streams: the special lane, queue caps / eviction / timeouts, admission filters and peer messages
+	for k, n := 0, g.Pick(40, 150); k < n; k++ {
+		ops, label := lanesCase(g)
+		g.Case("lanes "+label, ops, true)
+	}
+	for k, n := 0, g.Pick(45, 150); k < n; k++ {
+		ops, label := queueCapCase(g)
+		g.Case("qcap "+label, ops, true)
+	}
+	g.Case("evict: the 10 s eviction tick with a Lifetime every queue has outlived", []string{
+		hx.CaseOp("evict"), "pool accts=3 wallets=2 bal=100000000 tbal=1000 rmfuture=1 acctq=1000 lifens=1 avail=1",
+		"xfer from=0 to=1 amount=5 nonce=0", "xfer from=0 to=1 amount=6 nonce=2", "xfer from=0 to=1 amount=7 nonce=3", "xfer from=1 to=2 amount=8 nonce=4",
+		"evictwait", "xfer from=0 to=1 amount=9 nonce=1", "xfer from=1 to=2 amount=10 nonce=1", "reap max=1000", "commit max=1000"}, true)
+	for k, n := 0, g.Pick(35, 120); k < n; k++ {
+		ops, label := filtersCase(g)
+		g.Case("filters "+label, ops, true)
 	}
 	// concurrent stream: 8 submitting goroutines against the reaping/committing consensus goroutine
 	nc := g.Pick(25, 50)
@@ -893,4 +1029,196 @@ func cacheWindowCase(g *hx.Gen) ([]string, string) {
 	add("reap max=1000")
 	add("commit max=1000")
 	return ops, strings.Join(labels, "+")
+}
+
+// lanesCase: the special lane beside the ordinary ones.  Every msig op carries a fresh variant unless it repeats an earlier
+// line on purpose, so ids are exact.
+func lanesCase(g *hx.Gen) ([]string, string) {
+	r := g.Rng
+	specsize := pick(r, []int{1, 2, 100}, 40)
+	vals := 3 + r.Intn(3)
+	ops := []string{hx.CaseOp("lanes"), fmt.Sprintf("pool accts=3 wallets=2 bal=100000000 tbal=1000 vals=%d specsize=%d avail=1 size=%d maxreap=%d trie=%d seed=%d",
+		vals, specsize, pick(r, []int{2, 3000}, 70), pick(r, []int{1, 2, 10000}, 70), r.Intn(2), 1+r.Intn(1000))}
+	add := func(f string, a ...interface{}) { ops = append(ops, fmt.Sprintf(f, a...)) }
+	id, variant := 0, 0
+	mnext := 0 // the generator's estimate of the lane's next nonce
+	next := []int{0, 0, 0}
+	enough := vals*2/3 + 1
+	var msigLines []string
+	var built []int
+	amt := 10
+	for i, steps := 0, 10+r.Intn(14); i < steps; i++ {
+		switch x := r.Intn(100); {
+		case x < 30: // due nonce, enough signatures
+			variant++
+			l := fmt.Sprintf("msig nonce=%d sigs=%d variant=%d", mnext, enough+r.Intn(vals-enough+1), variant)
+			add("%s", l)
+			msigLines = append(msigLines, l)
+			mnext++
+			id++
+		case x < 38: // too few signatures (boundary: exactly two thirds)
+			variant++
+			add("msig nonce=%d sigs=%d variant=%d", mnext, r.Intn(enough), variant)
+			id++
+		case x < 46: // stale / future nonce, a second variant of a used nonce
+			variant++
+			n := mnext + []int{-1, 1, 2}[r.Intn(3)]
+			if n < 0 {
+				n = 0
+			}
+			add("msig nonce=%d sigs=%d variant=%d", n, vals, variant)
+			id++
+		case x < 52: // the same line again: a duplicate
+			if len(msigLines) > 0 {
+				add("%s", msigLines[r.Intn(len(msigLines))])
+			}
+		case x < 70: // ordinary transactions at the same time
+			from := r.Intn(3)
+			amt += 1 + r.Intn(9)
+			d := 0
+			if r.Intn(5) == 0 {
+				d = 1 + r.Intn(2)
+			}
+			add("xfer from=%d to=%d amount=%d nonce=%d", from, r.Intn(3), amt, next[from]+d)
+			if d == 0 {
+				next[from]++
+			}
+			id++
+		case x < 82:
+			add("reap max=%d", []int{0, 1, 2, 3, 1000}[r.Intn(5)])
+		case x < 92:
+			add("commit max=%d", []int{1, 2, 1000, 1000}[r.Intn(4)])
+		default: // a foreign block with a competitor of the lane's next nonce, or an under-signed one
+			variant++
+			sigs := vals
+			if r.Intn(3) == 0 {
+				sigs = r.Intn(enough)
+			}
+			add("msig nonce=%d sigs=%d variant=%d sub=0", []int{0, mnext, mnext + 1}[r.Intn(3)], sigs, variant)
+			built = append(built, id)
+			id++
+			add("force ids=%d", built[r.Intn(len(built))])
+		}
+	}
+	add("reap max=1000")
+	add("commit max=1000")
+	add("commit max=1000")
+	add("reap max=1000")
+	return ops, fmt.Sprintf("vals=%d specsize=%d", vals, specsize)
+}
+
+// queueCapCase: per-account queue cap, timeout drop, broadcast channel, notifications.
+func queueCapCase(g *hx.Gen) ([]string, string) {
+	r := g.Rng
+	acctq := 1 + r.Intn(3)
+	drop := r.Intn(4) == 0
+	ops := []string{hx.CaseOp("qcap"), fmt.Sprintf("pool accts=3 wallets=2 bal=100000000 tbal=1000 rmfuture=1 acctq=%d future=%d size=%d bcast=%d avail=1 trie=%d seed=%d%s",
+		acctq, pick(r, []int{3, 100000}, 70), pick(r, []int{3, 3000}, 70), r.Intn(2), r.Intn(2), 1+r.Intn(1000), map[bool]string{true: " droptime=0", false: ""}[drop])}
+	add := func(f string, a ...interface{}) { ops = append(ops, fmt.Sprintf(f, a...)) }
+	next := []int{0, 0, 0}
+	amt := 10
+	x := func(from, nonce int) {
+		amt += 1 + r.Intn(9)
+		add("xfer from=%d to=%d amount=%d nonce=%d", from, r.Intn(3), amt, nonce)
+	}
+	gapper := r.Intn(3) // one sender queues (a second one would make the Update's map order matter)
+	for round, rounds := 0, 2+r.Intn(3); round < rounds; round++ {
+		// a queue of cap-1 .. cap+2 entries behind a gap
+		k := acctq - 1 + r.Intn(4)
+		for i := 0; i < k; i++ {
+			x(gapper, next[gapper]+1+i)
+		}
+		for j := 0; j < r.Intn(3); j++ { // other senders: executable transactions
+			o := (gapper + 1 + r.Intn(2)) % 3
+			x(o, next[o])
+			next[o]++
+		}
+		if r.Intn(2) == 0 {
+			add("reap max=1000")
+		}
+		add("commit max=%d", []int{1, 1000, 1000}[r.Intn(3)]) // the Update caps the queue
+		// close the gap: the promotion takes what the cap left
+		x(gapper, next[gapper])
+		next[gapper]++
+		add("reap max=1000")
+		add("commit max=1000")
+		add("commit max=1000")
+		// the generator cannot know how far the promotion went: re-synchronise on a fresh sender estimate by forcing nothing;
+		// the next round starts above every nonce used so far
+		next[gapper] += k
+	}
+	return ops, fmt.Sprintf("acctq=%d drop=%v", acctq, drop)
+}
+
+// filtersCase: admission filters on the gas limit and the data, locally and as peer messages.  No commits.
+func filtersCase(g *hx.Gen) ([]string, string) {
+	r := g.Rng
+	p2p := 1
+	if r.Intn(4) == 0 {
+		p2p = 0
+	}
+	ops := []string{hx.CaseOp("filters"), fmt.Sprintf("pool accts=3 wallets=2 bal=100000000000 tbal=1000 code=1 p2ptx=%d bcast=%d trie=%d seed=%d", p2p, r.Intn(2), r.Intn(2), 1+r.Intn(1000))}
+	add := func(f string, a ...interface{}) { ops = append(ops, fmt.Sprintf(f, a...)) }
+	id := 0
+	next := []int{0, 0, 0}
+	amt := 10
+	for i, steps := 0, 10+r.Intn(12); i < steps; i++ {
+		from := r.Intn(3)
+		amt += 1 + r.Intn(9)
+		switch x := r.Intn(100); {
+		case x < 18: // gas limit around the fee rule's gas (5*10^5 for small amounts; 5*10^4 per started 10^8 units above 10^9)
+			a := []int{amt, 1000000000 + amt, 1100000000, 0}[r.Intn(4)]
+			base := 500000
+			if a > 1000000000 {
+				base = 50000 * ((a + 99999999) / 100000000)
+			}
+			add("xfer from=%d to=%d amount=%d nonce=%d gas=%d", from, r.Intn(3), a, next[from], base+[]int{-1, 0, 1, 100000}[r.Intn(4)])
+			id++
+		case x < 34: // data bytes against the intrinsic gas: 21000 + 68 nz + 4 z <= 500000
+			nz := []int{0, 1, 100, 7044, 7045, 7100}[r.Intn(6)]
+			z := []int{0, 1, 17, 1000}[r.Intn(4)]
+			if nz >= 7044 {
+				z = []int{0, 1}[r.Intn(2)]
+			}
+			add("xfer from=%d to=%d amount=%d nonce=%d nz=%d z=%d", from, r.Intn(3), amt, next[from], nz, z)
+			id++
+		case x < 46: // recipient with code: any gas >= intrinsic (value 0), >= contract fee gas (value > 0)
+			a := []int{0, 0, amt}[r.Intn(3)]
+			add("xfer from=%d to=0 amount=%d nonce=%d tocode=1 gas=%d nz=%d", from, a, next[from], []int{20999, 21000, 21067, 21068, 499999, 500000, 900000}[r.Intn(7)], r.Intn(2))
+			id++
+		case x < 54: // no recipient: contract creation (53000 + data)
+			nz := r.Intn(12)
+			add("xfer from=%d to=0 amount=%d nonce=%d create=1 nz=%d gas=%d", from, amt, next[from], nz, []int{53000 + 68*nz - 1, 53000 + 68*nz, 500000, 500001}[r.Intn(4)])
+			id++
+		case x < 62: // oversize
+			add("xfer from=%d to=%d amount=%d nonce=%d pad=%d", from, r.Intn(3), amt, next[from], 32768+r.Intn(900))
+			id++
+		case x < 80: // a peer sends a transaction: built here, not submitted locally
+			d := []int{0, 0, 0, 1, -1}[r.Intn(5)]
+			if next[from]+d < 0 {
+				d = 0
+			}
+			add("xfer from=%d to=%d amount=%d nonce=%d sub=0", from, r.Intn(3), amt, next[from]+d)
+			add("recv id=%d kind=tx", id)
+			if r.Intn(3) == 0 {
+				add("recv id=%d kind=tx", id) // again: duplicate
+			}
+			if d == 0 && p2p == 1 {
+				next[from]++
+			}
+			id++
+		case x < 88:
+			add("recv id=%d kind=%s", r.Intn(200), []string{"garbage", "empty"}[r.Intn(2)])
+		case x < 94:
+			if id > 0 {
+				add("recv id=%d kind=%s", r.Intn(id), []string{"notify", "request"}[r.Intn(2)])
+			}
+		default:
+			if id > 0 {
+				add("recv id=%d kind=tx", r.Intn(id)) // any earlier transaction, refused or not, comes back from a peer
+			}
+		}
+	}
+	add("reap max=1000")
+	return ops, fmt.Sprintf("p2ptx=%d", p2p)
 }
